@@ -95,6 +95,9 @@ def gen_desc(rng, depth, allow_agg, top=True):
     if r < 0.82:
         item = gen_desc(rng, depth - 1, allow_agg, False)
         n = None if (top and rng.chance(0.3)) else (0 if rng.chance(0.15) else rng.randint(1, 5))
+        if n and top and rng.chance(0.08):
+            # lengths that do not fit 32 bits (types only: never instantiated)
+            n = rng.choice([2 ** 31, 2 ** 32, 2 ** 32 + rng.randint(1, 5), 3 * 10 ** 9, 2 ** 31 - 1])
         return ['arr', item, n]
     nargs = rng.randint(0, 3)
     args = []
@@ -297,7 +300,7 @@ class Run(object):
             t = self.build_string(entry, d)
             if d[0] == 'ptr' and d[1][0] not in ('func',):
                 ct = self.checked(ffi.typeof(ffi.cast(t, 0)), d, 'typeof(cast)')
-            elif d[0] == 'arr' and d[2] is not None:
+            elif d[0] == 'arr' and d[2] is not None and d[2] <= 1000:
                 ct = self.checked(ffi.typeof(ffi.new(t)), d, 'typeof(new)')
             else:
                 ct = t
